@@ -260,7 +260,7 @@ pub fn suite_planner(dir: &str, seed: u64, thorough: bool, st: &mut Stats) {
     }
     st.count(&format!("planner/exhaustive-pairs/len<={}", l));
     // random larger layouts
-    let n = if thorough { 6000 } else { 600 };
+    let n = if thorough { 30000 } else { 600 };
     for _ in 0..n {
         let k = rng.range(1, 9) as usize;
         let sizes: Vec<usize> = (0..k).map(|_| rng.range(1, 6) as usize).collect();
@@ -280,7 +280,7 @@ pub fn suite_planner(dir: &str, seed: u64, thorough: bool, st: &mut Stats) {
 pub fn suite_hashkey(dir: &str, seed: u64, thorough: bool, st: &mut Stats) {
     let mut out = SuiteOut::new(dir, "hashkey");
     let mut rng = Rng::new(seed ^ 0x56);
-    let n = if thorough { 5000 } else { 600 };
+    let n = if thorough { 20000 } else { 600 };
     for _ in 0..n {
         let l = *rng.pick(&[0usize, 1, 4, 8, 16, 64, 70]);
         // a small pool of hashes with shared prefixes and different lengths (all >= l unless l is large)
@@ -593,7 +593,7 @@ fn gen_chunked(rng: &mut Rng) -> Option<(Scenario, crate::chunking::Cfg)> {
 pub fn suite_clone(dir: &str, seed: u64, thorough: bool, st: &mut Stats) {
     let mut out = SuiteOut::new(dir, "clone");
     let mut rng = Rng::new(seed ^ 0x66);
-    let n = if thorough { 5000 } else { 500 };
+    let n = if thorough { 20000 } else { 500 };
     for i in 0..n {
         let (sc, cfg) = if i % 2 == 0 { (gen_tiled(&mut rng), None) } else {
             match gen_chunked(&mut rng) { Some((s, c)) => (s, Some(c)), None => continue }
